@@ -34,6 +34,8 @@ type c2Case struct {
 var c2ErrorKinds = []string{
 	"error", "wraperror", "defererror", "defererror-with-followup", "defererror-nested", "syntax-openbrace", "syntax-straytoken", "syntax-string", "syntax-comment", "syntax-nul", "syntax-package",
 	"syntax-lateimport", "syntax-closebrace", "syntax-stmt", "skip", "ignore", "wrapskip", "wrapignore", "panic-free-nothing",
+	// a real error while other types of the same package signal ErrIgnore; unparseable text behind a //line directive
+	"error+ignore-elsewhere", "wraperror+wrapignore-elsewhere", "syntax-linedirective", "syntax-linecomment",
 }
 
 var c2Syntax = map[string]string{
@@ -46,6 +48,9 @@ var c2Syntax = map[string]string{
 	"syntax-lateimport": "\nvar pre$G$T = 0\n\nimport \"fmt\"\n",
 	"syntax-closebrace": "\n}\n",
 	"syntax-stmt":       "\nx$G$T := 1\n",
+	// positions behind a line directive are reported in another file
+	"syntax-linedirective": "\n//line tmpl$G.y:1\nfunc broken$G$T() {\n",
+	"syntax-linecomment":   "\n/*line other$G.y:2:1*/ var broken$G$T = = 1\n",
 }
 
 func genC02(t *rapid.T) c2Case {
@@ -170,6 +175,26 @@ func (c *c2Case) faultScripts(pt c2Point) []*script.Script {
 			act.Defers = nil
 		case pt.Kind == "die-by-panic":
 			act.Err = "panic"
+		case strings.HasSuffix(pt.Kind, "-elsewhere"):
+			// this type fails for real, every other defined type of the package gets ErrIgnore from the same generator
+			act.Err = strings.SplitN(pt.Kind, "+", 2)[0]
+			ign := strings.TrimSuffix(strings.SplitN(pt.Kind, "+", 2)[1], "-elsewhere")
+			for i := range c.Mod.Pkgs {
+				p := &c.Mod.Pkgs[i]
+				if c.Mod.PkgPath(p) != pt.Pkg {
+					continue
+				}
+				pkgLevel, _ := p.Types()
+				for _, ti := range pkgLevel {
+					if ti.Alias || ti.Name == pt.Type {
+						continue
+					}
+					if s.PerType == nil {
+						s.PerType = map[string]script.Action{}
+					}
+					s.PerType[pt.Pkg+"."+ti.Name] = script.Action{Err: ign}
+				}
+			}
 		default:
 			act.Err = pt.Kind
 		}
@@ -306,6 +331,9 @@ func oracleC02(c c2Case) error {
 				file := "zz_generated." + pt.Gen + ".go"
 				named := strings.Contains(res.Err, "`"+pt.Gen+"`") && strings.Contains(res.Err, pt.Pkg)
 				positioned := strings.Contains(res.Err, file) && posRe.MatchString(res.Err)
+				if strings.HasPrefix(pt.Kind, "syntax-line") {
+					positioned = regexp.MustCompile(`\.y:\d+`).MatchString(res.Err) // the position is reported in the file the line directive names (a //line without column gives file:line only)
+				}
 				if !named && !positioned {
 					return fmt.Errorf("%s: error %q names neither generator+package nor a syntax position in %s", where, res.Err, file)
 				}
@@ -344,7 +372,7 @@ func TestC02(t *testing.T) {
 		Level: "fault_enumeration",
 		Rule: "layouts: modules of 2-4 packages with previous outputs and a gengo.sum left by a successful run, sources then edited; for each layout EVERY (generator, " +
 			"package, type) position in processing order is enumerated and gets fault kinds round-robin from: plain error, wrapped error, error from a Defer " +
-			"callback (flat, after an earlier callback queued a follow-up, and from a callback that was itself registered by a callback), error from GenerateAliasType (alias positions), 9 unparseable renderings (open brace, stray token, unterminated string/comment, NUL, second " +
+			"callback (flat, after an earlier callback queued a follow-up, and from a callback that was itself registered by a callback), a real error while the other types of the package get ErrIgnore, error from GenerateAliasType (alias positions), 11 unparseable renderings (behind //line and /*line*/ directives, open brace, stray token, unterminated string/comment, NUL, second " +
 			"package clause, late import, stray '}', statement at top level), ErrSkip/ErrIgnore plain and wrapped (must not fail), and process death by os.Exit(3) / " +
 			"SIGKILL / an unrecovered panic inside GenerateType in a child process; evaluations = layouts + fault points; a fault point is non-trivial when it lands after a successful " +
 			"GenerateType, or in a package that is not the first, or there is a previous output file to protect; distinct by (layout-independent) JSON of the point",
